@@ -376,6 +376,9 @@ func (e *Extractor) IsCharacterLevel() (bool, error) {
 		return false, err
 	}
 
+	if e.reader == nil {
+		return false, e.pdfOnlyError()
+	}
 	page, err := e.reader.GetPage(0)
 	if err != nil {
 		return false, fmt.Errorf("reading page 1: %w", err)
@@ -407,6 +410,9 @@ func (e *Extractor) IsMultiColumn() (bool, error) {
 		return false, err
 	}
 
+	if e.reader == nil {
+		return false, e.pdfOnlyError()
+	}
 	page, err := e.reader.GetPage(0)
 	if err != nil {
 		return false, fmt.Errorf("reading page 1: %w", err)
@@ -1833,9 +1839,18 @@ func (e *Extractor) validateFormat() error {
 	return nil
 }
 
+// pdfOnlyError is returned by the page-level operations (fragments, lines,
+// layout analysis, ...) when the document is not a PDF.
+func (e *Extractor) pdfOnlyError() error {
+	return fmt.Errorf("operation is only available for PDF documents (this is %s)", e.format)
+}
+
 // resolvePages converts 1-indexed page numbers to 0-indexed and validates them.
 // If no pages specified, returns all pages.
 func (e *Extractor) resolvePages() ([]int, error) {
+	if e.reader == nil {
+		return nil, e.pdfOnlyError()
+	}
 	pageCount, err := e.reader.PageCount()
 	if err != nil {
 		return nil, fmt.Errorf("failed to get page count: %w", err)
